@@ -189,6 +189,24 @@ func c09bls(e common.Env, p *common.Part, n, t int, rng *mrand.Rand) {
 			}
 			p.Count("message_transfer_forgeries", int64(2*len(maps)))
 		}
+		// message substitution between a message and its own hash: a signature on M (not 32 bytes long) presented for SHA-256(M),
+		// and a signature on the 32-byte value D = SHA-256(M) presented for M - two different messages
+		for _, ml := range []int{0, 1, 31, 33, 40, 64, 200} {
+			M := make([]byte, ml)
+			rng.Read(M)
+			D := sha256.Sum256(M)
+			var sm, sd [][]byte
+			for _, sgn := range S {
+				sm = append(sm, blsPartial(parties, t, stored, sgn, M))
+				sd = append(sd, blsPartial(parties, t, stored, sgn, D[:]))
+			}
+			if am, err := v.AggregateSignatures(sm, S); err == nil && v.Verify(M, am) == nil {
+				o.expectReject("message", fmt.Sprintf("signature on a %d-byte message presented for the SHA-256 of that message", ml), v.Verify(D[:], am), wit)
+			}
+			if ad, err := v.AggregateSignatures(sd, S); err == nil && v.Verify(D[:], ad) == nil {
+				o.expectReject("message", fmt.Sprintf("signature on the SHA-256 of a %d-byte message presented for the message itself", ml), v.Verify(M, ad), wit)
+			}
+		}
 		// ONE long-lived Verifier object that is re-keyed: Init(key 1), verify; Init(key 2) on the same object, and the signature made
 		// under key 1 is presented again for the same digest (it must be rejected now), the genuine signature under key 2 accepted;
 		// then back to key 1. Whatever a verifier remembers from earlier calls must not outlive the key it belongs to.
